@@ -36,6 +36,8 @@ type world struct {
 	// freshPatterns: every enforcer gets key-match patterns never seen before in this process (the
 	// compiled-pattern cache of the key-match built-ins is process-wide and filled on first use)
 	freshPatterns bool
+	// batches: per enforcer, the one request batch all its BatchEnforce callers share (JSON world)
+	batches sync.Map
 }
 
 const twoTypesModel = `
@@ -64,6 +66,19 @@ g = _, _
 e = some(where (p.eft == allow))
 [matchers]
 m = r.sub == p.sub && keyMatch4(r.obj, p.obj) && r.act == p.act
+`
+
+const jsonModel = `
+[request_definition]
+r = sub, obj, act
+[policy_definition]
+p = sub, obj, act
+[role_definition]
+g = _, _
+[policy_effect]
+e = some(where (p.eft == allow))
+[matchers]
+m = g(r.sub.Name, p.sub) && r.obj == p.obj && r.act == p.act
 `
 
 const twoTypesPolicy = `p, alice, data1, read
@@ -107,7 +122,13 @@ func worlds() []*world {
 	km4 := base
 	km4.Objs = []string{"/res/1/x/1", "/res/2/x/3", "/res/7/x/7"}
 	km4.Matcher = "r.sub == p.sub && keyMatch4(r.obj, p.obj) && r.act == p.act"
+	// requests whose subject is JSON text (EnableAcceptJsonRequest): every BatchEnforce passes the same batch
+	js := base
+	js.Matcher = "g(r.sub.Name, p.sub) && r.obj == p.obj && r.act == p.act"
+	js.SubjectOf = func(user string) interface{} { return fmt.Sprintf("{\"Name\": %q}", user) }
 	return []*world{
+		{name: "json-requests", modelText: jsonModel, policy: readExample("rbac_with_hierarchy_policy.csv"), w: js,
+			setup: func(e *casbin.SyncedEnforcer) { e.EnableAcceptJsonRequest(true) }},
 		{name: "rbac-filtered-adapter", modelText: readExample("rbac_model.conf"), policy: readExample("rbac_with_hierarchy_policy.csv"), w: rbac, filteredAdapter: true},
 		{name: "keymatch4-fresh-patterns", modelText: keyMatch4Model, policy: "", w: km4, freshPatterns: true},
 		{name: "rbac", modelText: readExample("rbac_model.conf"), policy: readExample("rbac_with_hierarchy_policy.csv"), w: rbac},
@@ -167,6 +188,10 @@ func (sw *world) fresh(dir string) *casbin.SyncedEnforcer {
 	}
 	if sw.setup != nil {
 		sw.setup(e)
+	}
+	if sw.w.SubjectOf != nil {
+		// a batch of JSON-text requests never parsed before: the first callers all meet the strings
+		sw.batches.Store(e, [][]interface{}{{sw.w.SubjectOf("alice"), "data1", "read"}, {sw.w.SubjectOf("bob"), "data2", "write"}, {sw.w.SubjectOf("carol"), "data1", "read"}})
 	}
 	return e
 }
@@ -264,6 +289,9 @@ func main() {
 	call := func(e *casbin.SyncedEnforcer, sw *world, m syncapi.Method, rng *rand.Rand) {
 		w := sw.w
 		w.Watcher = mem.Plain{Watcher: &mem.Watcher{}}
+		if b, ok := sw.batches.Load(e); ok {
+			w.SharedBatch = b.([][]interface{})
+		}
 		if p := syncapi.Call(e, m, w.Args(m, rng)); p != "" {
 			notePanic(fmt.Sprintf("model=%s method=%s: %s", sw.name, m.Name, p))
 		}
@@ -277,6 +305,14 @@ func main() {
 		for _, sw := range ws {
 			a := readers[pi%len(readers)]
 			b := readers[(pi/len(readers)+pi*7)%len(readers)]
+			if sw.w.SubjectOf != nil && pi%3 == 0 {
+				// the shared batch is only interesting to BatchEnforce callers: pair them up
+				for _, m := range readers {
+					if m.Name == "BatchEnforce" {
+						a, b = m, m
+					}
+				}
+			}
 			pi++
 			e := sw.fresh(dir)
 			current.Store(fmt.Sprintf("first-call pair %s || %s on %s", a.Name, b.Name, sw.name))
